@@ -116,6 +116,12 @@ static bool cq_check(const carquet_bloom_filter_t* f, int t, int k) {
 
 static void c20_bloom(void) {
     static const size_t SZ[] = { 0, 1, 31, 32, 33, 63, 64, 65, 96, 1000, 1024 };
+    /* requests the rounding to whole blocks cannot represent: refused (NULL), never a filter smaller than asked for */
+    mc_stage("bloom.create.sizes-near-the-top-of-size_t");
+    { static const size_t HUGE[] = { (size_t)-1, (size_t)-2, (size_t)-31, (size_t)-32, (size_t)-33, (size_t)-64, ((size_t)1 << 63) + 1 };
+      for (int i = 0; i < 7; i++) { if (!mc_next()) continue; mc_desc("bloom:create;bytes=%zu", HUGE[i]); mc_case_key(mc_mix(0x211, (uint64_t)i)); mc_nontrivial();
+          carquet_bloom_filter_t* f = carquet_bloom_filter_create(HUGE[i]);
+          if (f) { size_t got = carquet_bloom_filter_size(f); if (got < HUGE[i]) { mc_fail("bloom.create.size-wraps", "create(%zu) returned a filter of %zu bytes / %zu blocks", HUGE[i], got, carquet_bloom_filter_num_blocks(f)); } else carquet_bloom_filter_destroy(f); } } }
     mc_stage("bloom.create.sizes");
     for (int i = 0; i < 11; i++) {
         if (!mc_next()) continue;
@@ -181,6 +187,19 @@ static void c20_bloom(void) {
                 }
                 carquet_bloom_filter_destroy(f); carquet_bloom_filter_destroy(fa); carquet_bloom_filter_destroy(fb);
             }
+    /* the empty byte string in both spellings a caller may use, (pointer, 0) and (NULL, 0): inserted as one, found as the other, directly, re-loaded and merged */
+    mc_stage("bloom.empty-byte-string.both-spellings");
+    for (int bi = 0; bi < 4; bi++) for (int ins = 0; ins < 2; ins++) for (int chk = 0; chk < 2; chk++) {
+        if (!mc_next()) continue;
+        static const size_t BS[] = { 32, 64, 1024, 4000 }; static const uint8_t one[1] = { 0x41 };
+        mc_desc("bloom:empty-string;bytes=%zu;inserted-as=%s;checked-as=%s", BS[bi], ins ? "(NULL,0)" : "(ptr,0)", chk ? "(NULL,0)" : "(ptr,0)"); mc_case_key(mc_mix(0xb10e, ((uint64_t)bi << 4) | ((uint64_t)ins << 1) | (uint64_t)chk)); mc_nontrivial();
+        carquet_bloom_filter_t* f = carquet_bloom_filter_create(BS[bi]); carquet_bloom_filter_t* g = carquet_bloom_filter_create(BS[bi]); if (!f || !g) { mc_fail("bloom.create", "size %zu", BS[bi]); continue; }
+        carquet_bloom_filter_insert_bytes(f, ins ? NULL : one, 0);
+        if (!carquet_bloom_filter_check_bytes(f, chk ? NULL : one, 0)) mc_fail("bloom.false-negative.empty-byte-string", "size %zu: inserted as %s, reported absent when checked as %s", BS[bi], ins ? "(NULL,0)" : "(ptr,0)", chk ? "(NULL,0)" : "(ptr,0)");
+        if (carquet_bloom_filter_merge(g, f) == CARQUET_OK && !carquet_bloom_filter_check_bytes(g, chk ? NULL : one, 0)) mc_fail("bloom.false-negative.empty-byte-string.merged", "size %zu", BS[bi]);
+        uint64_t want = ref_xxh64("", 0, 0); (void)want;
+        carquet_bloom_filter_destroy(f); carquet_bloom_filter_destroy(g);
+    }
     /* raw hashes: block selection over the whole 32-bit upper word range */
     mc_stage("bloom.insert-hash.block-selection");
     for (int bi = 0; bi < 6; bi++)
